@@ -3,7 +3,7 @@
    connection after ANY event list (sends of any size / retry mode, ticks at any times, received
    datagrams of any kind incl. forged or stale ack fields, reconfiguration). *)
 From Model Require Import Base SeqNum Wire Conn.
-From Proofs Require Import ConnFrameP NonceP AckP CallbackP.
+From Proofs Require Import SeqNumP ConnFrameP NonceP AckP CallbackP AckNamesP.
 Open Scope Z_scope.
 
 (* 1. Success is only ever reported while processing a received datagram that passes the
@@ -59,6 +59,29 @@ Theorem C07_resolution_deadline : forall e S K c n now c' o,
   forall s t, In (s, t) (c_packs c') -> now - t <= c_out_timeout c.
 Proof. exact server_tick_deadline. Qed.
 Print Assumptions C07_resolution_deadline.
+
+(* 4. The peer's half of "success means accepted": the (ack, ack_bits) fields a connection puts
+      into EVERY header it emits name only datagrams it has accepted.  Received datagrams are
+      labelled with the sender's true datagram index n (wire sequence number wire n; arrivals within
+      HALF of the newest accepted index: the half-range hypothesis of C08); the ghost g records the
+      newest accepted index and the set of accepted indices and GI ties it to the connection's
+      window.  For every event of every history: the ghost is preserved (unchanged, or extended by
+      the index just accepted) and each emitted header h satisfies
+         hdr_acks (h_ack h) (h_ackbits h) (wire i) = true  ->  i was accepted and is within 32 of the newest.
+      Together with 1 (the sender reports success only for a pending datagram named by an authentic
+      header of the peer) this is "a send callback reports success only after the peer endpoint has
+      accepted the datagram(s) carrying the message". *)
+Theorem C07_acks_name_accepted : forall e c x n g c' o,
+  GI c g ->
+  (forall d, dgram_of x = Some d -> h_seq (d_hdr d) = wire n /\ 1 <= n /\ near g n) ->
+  step e c x = (c', o) ->
+  exists g', GI c' g' /\ (g' = g \/ g' = ghost_add g n) /\ Forall (names_accepted g') (emits o).
+Proof. exact step_ghost. Qed.
+Print Assumptions C07_acks_name_accepted.
+
+Theorem C07_ghost_fresh : forall b, GI (conn0 b) None.
+Proof. intros b. reflexivity. Qed.
+Print Assumptions C07_ghost_fresh.
 
 (* Invariant used by 1 (fragment sender contexts kept in pending_fragments are never complete):
    it holds initially and is preserved by the callback machinery and the receive path. *)
